@@ -103,6 +103,32 @@ def check_instance(ift, inst):
                     out.append("%s: %s over a space without volume returns a result" % (tag, nm))
                 except Exception:
                     pass
+        # further array semantics of the Field interface
+        cmp("+x", lambda: +x, xa)
+        cmp("scale(3)", lambda: x.scale(3), 3 * xa)
+        cmp("scale(1)", lambda: x.scale(1), xa)
+        cmp("map", lambda: x.map(lambda v: v * 2 + 1), xa * 2 + 1)
+        cmp("extract", lambda: x.extract(dom), xa)
+        cmp("extract_part", lambda: x.extract_part(dom), xa)
+        cmp("unite", lambda: x.unite(y), xa + ya)
+        cmp("flexible_addsub(neg)", lambda: x.flexible_addsub(y, True), xa - ya)
+        cmp("flexible_addsub", lambda: x.flexible_addsub(y, False), xa + ya)
+        axes = tuple(a for k in S for a in dom.axes[k])
+        cmp("(x == y).all(spaces)", lambda: (x == y).all(S), np.all(xa == ya, axis=axes), contracted=True)
+        cmp("(x == y).any(spaces)", lambda: (x == y).any(S), np.any(xa == ya, axis=axes), contracted=True)
+        cmp("s_all", lambda: bool((x == y).s_all()), bool(np.all(xa == ya)))
+        cmp("s_any", lambda: bool((x == y).s_any()), bool(np.any(xa == ya)))
+        cmp("real", lambda: x.real, xa.real)
+        if dt is np.complex128:
+            cmp("imag", lambda: x.imag, xa.imag)
+        cmp("size", lambda: x.size, xa.size)
+        cmp("astype(complex)", lambda: x.astype(np.complex128), xa.astype(np.complex128))
+        if not full and len(S) == 1:
+            # broadcasting the contracted field back along the contracted space repeats it along that axis
+            k = S[0]
+            cmp("sum(spaces).broadcast", lambda: x.sum(S).broadcast(k, dom[k]), np.broadcast_to(np.expand_dims(exp("sum"), dom.axes[k][0]), dom.shape))
+        if inst["hasvol"] and full:
+            cmp("s_std^2", lambda: x.s_std() ** 2, np.array([rv(v) for v in inst["var"]]).reshape(rshape), 1e-12)
         cmp("norm(2)^2", lambda: x.norm(2) ** 2, rv(inst["norm2sq"]), 1e-13)
         cmp("norm(inf)^2", lambda: x.norm(np.inf) ** 2, rv(inst["norminfsq"]), 1e-13)
         if not inst["cplx"]:
@@ -121,6 +147,21 @@ def check_instance(ift, inst):
             s = mx + my
             if not (np.array_equal(s["u"].asnumpy(), xa + ya) and np.array_equal((mx * my)["v"].asnumpy(), ya * xa)):
                 out.append("%s: MultiField arithmetic differs" % tag)
+            for nm, got, e_u, e_v in (("real", lambda: mx.real, xa.real, ya.real), ("conjugate", lambda: mx.conjugate(), np.conj(xa), np.conj(ya)), ("abs", lambda: abs(mx), np.abs(xa), np.abs(ya)),
+                                      ("-", lambda: -mx, -xa, -ya), ("astype", lambda: mx.astype({"u": np.complex128, "v": np.complex128}), xa.astype(complex), ya.astype(complex))) + \
+                    ((("imag", lambda: mx.imag, xa.imag, ya.imag),) if dt is np.complex128 else (("clip", lambda: mx.clip(-1, 2), np.clip(xa, -1, 2), np.clip(ya, -1, 2)),)):
+                g_ = got()
+                if not (np.allclose(g_["u"].asnumpy(), e_u, rtol=1e-14, atol=0) and np.allclose(g_["v"].asnumpy(), e_v, rtol=1e-14, atol=0)):
+                    out.append("%s: MultiField.%s differs from the per-key array result" % (tag, nm))
+            if mx.size != xa.size + ya.size:
+                out.append("%s: MultiField.size %s" % (tag, mx.size))
+            eq = ift.MultiField.from_dict({"u": x == y, "v": y == x})
+            if bool(eq.s_all()) != bool(np.all(xa == ya)) or bool(eq.s_any()) != bool(np.any(xa == ya)):
+                out.append("%s: MultiField.s_all / s_any differ from all / any over the concatenated arrays" % tag)
+            rw = mx.val_rw()
+            rw["u"][(0,) * xa.ndim] = 99
+            if mx["u"].asnumpy()[(0,) * xa.ndim] == 99 and xa[(0,) * xa.ndim] != 99:
+                out.append("%s: MultiField.val_rw() hands out the field's own buffer" % tag)
         except Exception as e:
             out.append("%s: MultiField counterpart raised %s: %s" % (tag, type(e).__name__, str(e)[:100]))
         # operands on different domains are rejected (same shape, another space)
